@@ -80,6 +80,73 @@ def dump_history_unfiltered(chk, program, consts, sf, cf):
                   expected=f"{want[0]}, {want[1]} dump line(s)", found={'status': status, 'lines': w},
                   detail='' if (status, w) == want else 'a message the filters withhold is written to the dump, or a returned message is written twice')
 
+def cli_file_reaches_from_json(chk, program, rule='JSON-BACK'):
+    """the command line's `encode --file` branch: what the file holds is what from_json gets -- the whole text, or its lines one by one with none
+    lost.  The branch is interpreted with a stand-in file of one JSON text without a trailing line break, and of two lines; what is handed to
+    from_json, joined, must be the file's text (white space at the ends aside).  No cli module, no such branch, or a branch the interpreter cannot
+    follow: no verdict from this clause."""
+    import ast
+    from .. import absint as A
+    if 'cli' not in program.modules:
+        return
+    mod = program.mod('cli')
+    branch = None
+    for fn in ast.walk(mod.tree):
+        if isinstance(fn, (ast.FunctionDef, ast.AsyncFunctionDef)):
+            for n in ast.walk(fn):
+                if isinstance(n, ast.If) and ast.unparse(n.test) == 'args.file' and any(isinstance(c, ast.Call) and ast.unparse(c.func).endswith('from_json') for b in n.body for c in ast.walk(b)):
+                    branch = n
+    if branch is None:
+        chk.unit('cli_file_branch', 'not found')
+        return
+    bad = []
+    try:
+        for name, text in (('one-message-no-line-break-at-the-end', '{"PGN": 1}'), ('one-message-with-line-break', '{"PGN": 1}\n'), ('two-lines', '{"PGN": 1}\n{"PGN": 2}\n'),
+                           ('two-lines-no-line-break-at-the-end', '{"PGN": 1}\n{"PGN": 2}')):
+            got = []
+            handle = A.AObj(__file__=True)
+            def hook(it, call, env, got=got, handle=handle, text=text):
+                nm = ast.unparse(call.func)
+                if nm == 'open':
+                    return handle
+                if isinstance(call.func, ast.Attribute) and isinstance(call.func.value, ast.Name) and env.get(call.func.value.id) is handle:
+                    if call.func.attr == 'read' and not call.args:
+                        return A.AStr([('lit', text)])
+                    if call.func.attr in ('readlines',) and not call.args:
+                        return A.AList([A.AStr([('lit', l)]) for l in text.splitlines(True)])
+                    if call.func.attr == 'close':
+                        return None
+                    raise A.Unknown(f"file method {call.func.attr}")
+                if nm.endswith('from_json'):
+                    a = it.expr(call.args[0], env)
+                    if not (isinstance(a, A.AStr) and a.literal() is not None):
+                        raise A.Unknown('from_json argument not followed')
+                    got.append(a.literal())
+                    return A.AOpaque('message')
+                if nm.startswith('encoder.') or nm in ('print', 'exit', 'sys.exit') or nm.startswith('logger.') or nm.startswith('logging.'):
+                    for a_ in call.args:
+                        it.expr(a_, env)          # the arguments are evaluated (from_json may be called in place)
+                    return A.AOpaque(nm)
+                return NotImplemented
+            it = A.Interp(hook=hook, module=A.ModuleEnv(mod.tree))
+            env = {'args': A.AObj(file=A.AStr([('lit', 'messages.json')]), frame=None), 'encoder': A.AObj()}
+            try:
+                it.block(branch.body, env)
+            except A.RaiseSignal:
+                pass
+            whole = [g.strip() for g in got] == [text.strip()]
+            by_line = [g.strip() for g in got if g.strip()] == [l.strip() for l in text.splitlines() if l.strip()]
+            if 'two-lines' in name and len(got) == 1 and whole:
+                continue          # the reader takes one JSON text per file: a file of several lines is not its input
+            if not (whole or by_line):
+                bad.append(f"{name}: file text {text!r} -> from_json receives {got!r}")
+    except (A.Unknown, A.PyError, RecursionError) as u:
+        chk.unit('cli_file_branch_not_interpretable', str(u)[:160])
+        return
+    chk.check(not bad, rule, 'cli::encode-file::every-message-of-the-file-reaches-from_json', file='nmea2000/cli.py', line=branch.lineno, func='async_main',
+              expected='the text of the file (or each of its lines) is handed to NMEA2000Message.from_json', found='ok' if not bad else bad[:3],
+              detail='' if not bad else 'a message of the file is never parsed back: the round trip through a file loses it')
+
 def run(chk, program, tier):
     for r, t in (('DUMP-GUARD', 'dump decision table'), ('DUMP-NORM', 'LOWER probe against the lower-cased dump id list'), ('DUMP-TEXT', 'json + newline, append mode, closed'),
                  ('JSON-TYPES', 'default hook covers non-native types'), ('JSON-BACK', 'from_json rebuilds message and fields'), ('JSON-RAW-FIRST', 'encoders prefer raw values')):
@@ -87,6 +154,7 @@ def run(chk, program, tier):
     consts = F.module_consts(program)
     sf, cf = F.facts_or_none(program)
     dump_history(chk, program, consts, sf, cf)
+    cli_file_reaches_from_json(chk, program)
     dump_history_unfiltered(chk, program, consts, sf, cf)
     stages = {'_decode': F.stage_events(program, '_decode'), '_call_decode_function': F.stage_events(program, '_call_decode_function')}
     fn, ex = stages['_call_decode_function']
